@@ -83,8 +83,8 @@ def m_resolve(u, m, v, eie, strict=False):
     try:
         k = kf(v)
     except Exception as e:
-        if strict:
-            raise ModelError((type(e),))
+        if strict and not isinstance(e, TypeError):          # lookup: a key function that cannot digest v (TypeError) means "no such
+            raise ModelError((type(e),))                     # item", like membership and discard; anything else it raises gets out
         return None
     if canon(k) in m and (not eie or m[canon(k)][1] == v):
         return canon(k)
